@@ -115,3 +115,47 @@ def e1_applies(t, v):
     if k == 'choice':
         return e1_applies(t[1][v[1]][2], v[2])
     return False
+
+
+# ----------------------------------------------------------------------------- writer (for rewrites)
+
+CLS_VAL = {'u': 0, 'a': 0x40, 'c': 0x80, 'p': 0xC0}
+
+
+def emit_ident(cls, cons, num):
+    first = CLS_VAL[cls] | (0x20 if cons else 0)
+    if num < 31:
+        return bytes([first | num])
+    out = [num & 0x7F]
+    num >>= 7
+    while num:
+        out.insert(0, 0x80 | (num & 0x7F))
+        num >>= 7
+    return bytes([first | 0x1F] + out)
+
+
+def emit_len(n):
+    if n < 0x80:
+        return bytes([n])
+    b = n.to_bytes((n.bit_length() + 7) // 8, 'big')
+    return bytes([0x80 | len(b)]) + b
+
+
+def emit(node):
+    """serialise a (possibly rewritten) tree from read_tlv; ancestors get minimal definite lengths"""
+    cls, num = node['tag']
+    if node.get('raw') is not None:
+        return node['raw']
+    if node['cons']:
+        body = b''.join(emit(c) for c in node['children'])
+        if node.get('indef'):
+            return emit_ident(cls, True, num) + b'\x80' + body + b'\x00\x00'
+        return emit_ident(cls, True, num) + emit_len(len(body)) + body
+    return emit_ident(cls, False, num) + emit_len(len(node['content'])) + node['content']
+
+
+def all_nodes(node, depth=0):
+    yield node, depth
+    for c in node.get('children', []):
+        for x in all_nodes(c, depth + 1):
+            yield x
